@@ -33,6 +33,10 @@ def confirm(sid):
     rc, out = sh(f"git -C /repo worktree add -q {wt} HEAD")
     res = {"id": sid, "time": time.strftime("%Y-%m-%d %H:%M:%S")}
     try:
+        # the scratch worktree is a pristine checkout of HEAD: run the demonstration there first (must PASS) …
+        env = dict(os.environ, PYTHONPATH=wt, JAX_PLATFORMS="cpu")
+        rc2, o2 = sh(f"{PY} {d}/demo.py", cwd="/tmp", env=env, timeout=1800)
+        res["demo_without_patch"] = {"rc": rc2, "tail": o2.strip().splitlines()[-3:]}
         rc, out = sh(f"git apply {d}/patch.diff", cwd=wt)
         res["applies"] = rc == 0
         if rc != 0:
@@ -46,12 +50,9 @@ def confirm(sid):
         res["passed"] = int(mp.group(1)) if mp else 0
         res["failed"] = failed
         res["suite_green"] = (failed == 0) or (failed == 1 and "TestGradientNormAdditional::test_2d" in out)
-        env = dict(os.environ, PYTHONPATH=wt, JAX_PLATFORMS="cpu")
+        # … then with the change applied (must FAIL)
         rc1, o1 = sh(f"{PY} {d}/demo.py", cwd="/tmp", env=env, timeout=1800)
-        env2 = dict(os.environ, PYTHONPATH="/repo", JAX_PLATFORMS="cpu")
-        rc2, o2 = sh(f"{PY} {d}/demo.py", cwd="/tmp", env=env2, timeout=1800)
         res["demo_with_patch"] = {"rc": rc1, "tail": o1.strip().splitlines()[-3:]}
-        res["demo_without_patch"] = {"rc": rc2, "tail": o2.strip().splitlines()[-3:]}
         res["confirmed"] = bool(res["suite_green"] and rc1 != 0 and rc2 == 0)
     finally:
         sh(f"git -C /repo worktree remove --force {wt}")
